@@ -1050,12 +1050,12 @@ class StructOf(DataType):
         except (TypeError, AttributeError):  # only mappings are accepted
             raise WrongTypeError(f'{type(value).__name__} can not be converted a StructOf') from None
         if superfluous - set(self.optional):
-            raise WrongTypeError(f"struct contains superfluous members: {', '.join(superfluous)}")
+            raise WrongTypeError(f"struct contains superfluous members: {', '.join(map(repr, superfluous))}")
         missing = set(self.members) - set(value)
         if self.client or allow_optional:  # on the client side, allow optional elements always
             missing -= set(self.optional)
         if missing:
-            raise WrongTypeError(f"missing struct elements: {', '.join(missing)}")
+            raise WrongTypeError(f"missing struct elements: {', '.join(map(repr, missing))}")
 
     def export_value(self, value):
         """returns a python object fit for serialisation"""
